@@ -133,5 +133,9 @@ func isNumeric(s string) bool {
 			return false
 		}
 	}
+	// JSON numbers have no leading zeros ("007"): such text stays a string
+	if len(s) > 1 && s[0] == '0' && s[1] != '.' {
+		return false
+	}
 	return i > 0
 }
